@@ -20,8 +20,9 @@ Inductive act :=
 | AWake (n : N) | AIn (toks : list N) | AWinch | ATerm | AWrite (len : N) | APause (b : bool)
 | APoll (tmo : option N).
 
-(* poll results: Wake, Resize, key/token, None, quit error, other error *)
-Inductive pobs := OW | OR | OK (t : N) | ON | OQ | OE.
+(* poll results: Wake, Resize, key/token, None, quit error, other error, OH = an infinite poll that
+   had not returned after two seconds although the script left an event outstanding *)
+Inductive pobs := OW | OR | OK (t : N) | ON | OQ | OE | OH.
 
 Inductive c17_case :=
 | CS (acts : list act) (obs : list pobs) (end_paused restored closing : bool)
@@ -30,7 +31,7 @@ Inductive c17_case :=
 
 Definition pobs_eqb (a b : pobs) : bool :=
   match a, b with
-  | OW, OW | OR, OR | ON, ON | OQ, OQ | OE, OE => true
+  | OW, OW | OR, OR | ON, ON | OQ, OQ | OE, OE | OH, OH => true
   | OK x, OK y => x =? y
   | _, _ => false
   end.
@@ -147,7 +148,7 @@ Fixpoint spec_run (o : outstanding) (acts : list act) (obs : list pobs) : bool :
                  the session is over (its flag stays set, design/C17.md) *)
               | OQ => o_term o && spec_run (mkO (o_wake o) (o_may o) false false (o_keys o)) rest obs'
               | ON => nothing_outstanding o && spec_run o rest obs'
-              | OE => false
+              | OE | OH => false
               end
           end
       end
